@@ -113,6 +113,13 @@ func protectedPath(p []any) bool {
 		switch k {
 		case "property", "engine", "seed":
 			return true
+		case "tasks":
+			// task ids name the caller tasks in the event log: renumbering them makes another document
+			if len(p) == 3 {
+				if k2, ok := p[2].(string); ok && k2 == "id" {
+					return true
+				}
+			}
 		case "world":
 			if len(p) > 1 {
 				if k2, ok := p[1].(string); ok && k2 == "clock" {
